@@ -7,7 +7,7 @@ from typing import Dict, List, Optional, Tuple
 
 from .aggfacts import facts_of
 from .astutil import Defs, is_range_of
-from .core import AnalysisError, FuncInfo, Program, attr_chain, kwarg, short, walk_no_nested, walk_stmts
+from .core import AnalysisError, FuncInfo, Program, attr_chain, cshort, kwarg, short, walk_no_nested, walk_stmts
 
 BUILTINS = ("sum", "mean", "min", "max", "count", "stdev")
 
@@ -37,6 +37,12 @@ class GroupFacts:
         self.defs = Defs(self.f)
         self.body = [s for s in self.f.body if not (isinstance(s, ast.Expr) and isinstance(s.value, ast.Constant))]
         self.partition_error: Optional[str] = None
+        self.result_list = "result_cols"
+        for st in reversed(self.body):
+            if isinstance(st, ast.Return) and isinstance(st.value, ast.Call) and short(st.value.func) == "Table" and st.value.args \
+                    and isinstance(st.value.args[0], ast.Name):
+                self.result_list = st.value.args[0].id
+                break
         self.nrows = [n for n, lst in self.defs.assigns.items() if any(v is not None and short(v) == "len(self)" for v, _, _ in lst)]
         self.over = self.f.params[1]
         self.group_items: List[str] = []
@@ -78,7 +84,7 @@ class GroupFacts:
                             if any(v is not None and short(v) == f"list({self.index_var}.items())" for v, _, _ in lst)]
         # key data: over_data = [c._underlying for c in over]
         self.over_data = [n for n, lst in d.assigns.items()
-                          if any(v is not None and short(v) == f"[c._underlying for c in {self.over}]" for v, _, _ in lst)]
+                          if any(v is not None and cshort(v) == f"[_0._underlying for _0 in {self.over}]" for v, _, _ in lst)]
         self.row_keys = [n for n, lst in d.assigns.items()
                          if any(v is not None and isinstance(v, ast.BinOp) and isinstance(v.op, ast.Mult) and short(v.left) == "[None]"
                                 for v, _, _ in lst)]
@@ -210,7 +216,7 @@ class GroupFacts:
                     for s in lp.body:
                         if isinstance(s, ast.Assign) and s.value is c and isinstance(s.targets[0], ast.Name):
                             gm = s.targets[0].id
-                    apps = [n for n in walk_no_nested(lp) if isinstance(n, ast.Call) and short(n.func) == "result_cols.append"]
+                    apps = [n for n in walk_no_nested(lp) if isinstance(n, ast.Call) and short(n.func) == f"{self.result_list}.append"]
                     if len(apps) == 1 and isinstance(apps[0].args[0], ast.Call) and short(apps[0].args[0].func) == "Vector":
                         v = apps[0].args[0]
                         b.data_expr = v.args[0] if v.args else None
